@@ -12,11 +12,32 @@ TOL = 1e-10
 LEAN_DENSE_MAX_D = 36
 
 
+class TooLarge(Exception):
+    """the dense matrices of this zoo case would be too large for the check"""
+
+
 def real_side(case):
     """everything observable of the real model, JSON-able part under 'j', numpy part under 'np'"""
     from tenpy.networks import mpo
     from tenpy.networks.terms import MultiCouplingTerms
-    M, lean_calls, distinct = cm.build_model(case)
+    from tenpy.models.model import CouplingModel
+    case_eff = case
+    if case.get('kind') == 'zoo':
+        from harness import c10_zoo
+        M, lean_calls, distinct, calls, unsupported = c10_zoo.build_zoo_model(case)
+        dims = [s.dim for s in M.lat.mps_sites()]
+        window = 1
+        if M.lat.bc_MPS != 'finite':
+            window = 3 if float(np.prod(dims)) ** 3 <= 1100 else 2
+        if float(np.prod(dims)) ** window > 1300:
+            raise TooLarge()
+        case_eff = dict(case, calls=calls, explicit=bool(getattr(M, 'explicit_plus_hc', False)),
+                        lattice={'bc_MPS': M.lat.bc_MPS}, window=window, unsupported=unsupported)
+        if not isinstance(M, CouplingModel):
+            return dict(M=M, lean_calls=[], distinct=distinct, j=None, infinite=M.lat.bc_MPS != 'finite',
+                        N=M.lat.N_sites, case_eff=case_eff, plain=True)
+    else:
+        M, lean_calls, distinct = cm.build_model(case)
     lat = M.lat
     N = lat.N_sites
     infinite = lat.bc_MPS != 'finite'
@@ -49,7 +70,7 @@ def real_side(case):
     j['IdL'] = [None if x is None else int(x) for x in H.IdL]
     j['IdR'] = [None if x is None else int(x) for x in H.IdR]
     j['chi'] = [int(x) for x in H.chi]
-    return dict(M=M, lean_calls=lean_calls, distinct=distinct, j=j, infinite=infinite, N=N)
+    return dict(M=M, lean_calls=lean_calls, distinct=distinct, j=j, infinite=infinite, N=N, case_eff=case_eff, plain=False)
 
 
 def window_of(case):
@@ -60,10 +81,13 @@ def window_of(case):
 
 def lean_request(case, real, with_dense=True):
     M = real['M']
+    case = real.get('case_eff', case)
+    if real.get('plain'):
+        return {'k': 'noop'}
     sites = real['distinct']
     idx = {id(s): n for n, s in enumerate(sites)}
     req = {'k': 'model', 'L': real['N'], 'infinite': real['infinite'], 'explicit': bool(case.get('explicit', False)),
-           'site_of': [idx[id(s)] for s in M.lat.mps_sites()],
+           'site_of': [idx[id(M.lat.unit_cell[int(u)])] for u in M.lat.order[:, -1]],
            'sites': [oc.site_json(s) for s in sites], 'calls': real['lean_calls'], 'window': window_of(case)}
     if with_dense and not real['infinite']:
         D = int(np.prod([s.dim for s in M.lat.mps_sites()]))
@@ -85,6 +109,23 @@ def eval_canon(mb, canon_json, n_sites):
             continue
         H = H + oc.parse_gq(c) * mb.string(ops)
     return oc.dense(H)
+
+
+def json_close(a, b, exact=True, tol=1e-12):
+    """equality of JSON values; with exact=False numeric [re, im] pairs are compared to relative `tol`
+    (zoo models with irrational parameters: float sums in tenpy vs exact sums of the same floats in Lean)"""
+    if exact:
+        return a == b
+    if isinstance(a, list) and isinstance(b, list):
+        if len(a) != len(b):
+            return False
+        if len(a) == 2 and all(cm._is_num(v) for v in a) and all(cm._is_num(v) for v in b):
+            za, zb = oc.parse_gq(a), oc.parse_gq(b)
+            return abs(za - zb) <= tol * max(1.0, abs(za), abs(zb))
+        return all(json_close(x, y, exact, tol) for x, y in zip(a, b))
+    if isinstance(a, dict) and isinstance(b, dict):
+        return a.keys() == b.keys() and all(json_close(a[k], b[k], exact, tol) for k in a)
+    return a == b
 
 
 def centered_left(case):
@@ -138,16 +179,35 @@ def check_case(case, lean_out, real=None, use_model=True):
     lat = M.lat
     N = real['N']
     infinite = real['infinite']
+    case = real.get('case_eff', case)
+    zoo = case.get('kind') == 'zoo'
     explicit = bool(case.get('explicit', False))
     j = real['j']
+    if zoo and case.get('unsupported'):
+        fails.append(('correspondence', 'zoo.unsupported-adder', f'adders not logged: {case["unsupported"]}'))
 
     # ---------------- oracle and dense representations -----------------------------------
     n_cells = window_of(case)
-    try:
-        H, A, B = cm.oracle_matrix(case, lat, n_cells=n_cells if infinite else 1)
-    except Exception as e:  # noqa: BLE001
-        fails.append(('correspondence', f'oracle.error.{type(e).__name__}', traceback.format_exc()[-1500:]))
-        return fails, facts
+    H = None
+    if not real.get('plain'):
+        try:
+            H, A, B = cm.oracle_matrix(case, lat, n_cells=n_cells if infinite else 1)
+        except Exception as e:  # noqa: BLE001
+            fails.append(('correspondence', f'oracle.error.{type(e).__name__}', traceback.format_exc()[-1500:]))
+            return fails, facts
+    else:
+        # not a CouplingModel (AKLTChain): the representations are compared with each other
+        try:
+            if not infinite:
+                from tenpy.algorithms.exact_diag import ExactDiag
+                ed = ExactDiag(M)
+                ed.build_full_H_from_mpo()
+                H = cm.ed_dense(ed)
+            else:
+                H = cm.mpo_window_dense(M.H_MPO, n_cells * N)
+        except Exception as e:  # noqa: BLE001
+            fails.append(('property', f'dense.mpo.error.{type(e).__name__}', traceback.format_exc()[-1500:]))
+            return fails, facts
     scale = max(1.0, float(np.max(np.abs(H))) if H.size else 1.0)
     tol = TOL * scale
     facts['herm_oracle'] = oc.herm_defect(H) <= tol
@@ -211,6 +271,8 @@ def check_case(case, lean_out, real=None, use_model=True):
                 sig = 'dense.mpo_from_bond.chinfo_unbound'
             if name.startswith('grouped') and isinstance(rep, TypeError) and "'bool' object is not iterable" in str(rep):
                 sig = 'dense.grouped.GroupedSite_charge_to_JW_parity_list'
+            if name == 'bond_from_mpo' and isinstance(rep, AttributeError) and 'explicit_plus_hc' in str(rep):
+                sig = 'dense.bond_from_mpo.mpomodel_without_explicit_plus_hc'
             if name == 'grouped_segment' and isinstance(rep, ZeroDivisionError):
                 sig = 'dense.grouped_segment.extract_segment_after_group_sites'
             fails.append(('property', sig, f'{name}: {rep!r}'))
@@ -230,7 +292,7 @@ def check_case(case, lean_out, real=None, use_model=True):
     for a, b in zip(names, names[1:]):
         facts['pairs'] = facts.get('pairs', 0) + 1
 
-    if not use_model or lean_out is None:
+    if not use_model or lean_out is None or real.get('plain'):
         return fails, facts
 
     # ---------------- model vs implementation ---------------------------------------------
@@ -244,7 +306,7 @@ def check_case(case, lean_out, real=None, use_model=True):
         got = lean_out.get(fld)
         if fld == 'tl_exp' and want is None:
             continue
-        if cm.norm_num(want) != cm.norm_num(got):
+        if not json_close(cm.norm_num(want), cm.norm_num(got), exact=not zoo):
             fails.append(('correspondence', f'model.{fld}',
                           f'impl {json.dumps(cm.norm_num(want))[:600]} model {json.dumps(cm.norm_num(got))[:600]}'))
     # IdL / IdR / chi from the ordered states
